@@ -43,6 +43,38 @@ CLAIMS = {
         "rendered with quotes/escapes and white-space separators (induction over the list). Correspondence: real parse_command on all case "
         "variants, all single edits, all lines over a 7-letter alphabet up to a bound, random full-range lines; exception type classified.",
    note="std::istringstream >> / std::quoted / boost::iequals contracts are transcribed by hand (libstdc++ 12, C locale) and exercised.", ref="DESIGN.md section 7 C19"),
+ "C01": dict(
+   text="Theorems (induction over the delivery schedule and over the reply list): for every finite sequence of well-formed replies and "
+        "every cut of the stream into reads, the receive steps of the reader model yield exactly the replies and keep what follows "
+        "(`step`, `framing`, `schedule_independent`), and the reference decoder used as monitor inverts the encoding. Correspondence: real "
+        "control_connection::recv (real match_eol + boost::asio::read_until) over an in-memory transport on every stream of a small grammar "
+        "x all 2^(n-1) cut sets, directed CR|LF cuts, random long replies.",
+   note="boost::asio::read_until on a dynamic_buffer(8192) is transcribed by hand (Model/Reader.lean) and exercised, not proved.", ref="DESIGN.md section 7 C01"),
+ "C08": dict(
+   text="Theorems for every buffer content, server output, schedule and end-of-stream kind: a receive step terminates within the model's "
+        "fuel, asks the transport at most once after its end and then reports an error, never buffers more than 8192 bytes, refuses an "
+        "over-long line, and decimal fields are never wrapped. Correspondence (also under ASan+UBSan): arbitrary / mutated / truncated "
+        "server output with EOF or an I/O error at every position; outcome classified (reply / ftp_exception / other / livelock / abort).",
+   note="Memory safety, UB and exception *types* are dynamic checks (sanitizer build, catch classification), not theorems; the client-level "
+        "and data-connection fault positions are exercised by the C13/C17/C11 stages.", ref="DESIGN.md section 7 C08"),
+ "C03": dict(
+   text="Theorems for every payload and every segmentation into reads of 1..8192 bytes: the binary receive loop hands the sink exactly "
+        "the payload, flushes once after the last byte, independent of the segmentation; the ASCII path delivers dlSpec(payload); a read "
+        "error is reported and nothing is flushed. Correspondence: real ftp::client (in-memory control channel, real loopback data "
+        "connections to a scripted peer) x payload sizes around the 8192-byte block x four methods x IPv4/IPv6, listings included.",
+   note="TCP delivery itself is trusted; TLS data connections are covered by the C11 stage.", ref="DESIGN.md section 7 C03"),
+ "C04": dict(
+   text="Theorems for every payload and every short-read pattern of the source: the bytes written to the data connection are exactly the "
+        "source bytes (ASCII: ulSpec), blocks never exceed 8192 bytes, the data socket is shut down and closed before the completion reply "
+        "is read, a failed write is reported. Correspondence: real uploads (STOR/STOU/APPE) to the scripted peer, bytes and EOF seen by "
+        "the peer, event order from libc interposition.",
+   note="Back-pressure / partial sends are handled by boost::asio::write (trusted); observed via coalesced send() events.", ref="DESIGN.md section 7 C04"),
+ "C12": dict(
+   text="Theorems for every payload, read sequence and poll oracle: the callback events of download and upload have the shape "
+        "poll-begin-(block, notify, poll)*-end with notify = block size <= 8192 and nothing after a poll that reported true; cancelled "
+        "before start = a single poll; cancellation sends ABOR, closes the data connection without graceful shutdown and returns ABOR's "
+        "replies; no ABOR otherwise. Correspondence: real transfers x cancellation at poll 0..4/never x four methods x both types.",
+   note="The lockstep aspect of ABOR (a server that had already completed the transfer) is C02's recorded finding.", ref="DESIGN.md section 7 C12"),
 }
 PENDING = "check not built yet (work in progress; see DESIGN.md section 12)"
 
